@@ -139,7 +139,7 @@ def rule_shared_state(ctx):
     prog = ctx.prog
     from .c17 import session_table
 
-    allowed = {session_table(prog), ("server", "shared_fs")}
+    allowed = {session_table(prog), prog.locate("server", "shared_fs") or ("server", "shared_fs")}
     found = []
 
     def names(e, mm, mname, k):
